@@ -105,25 +105,44 @@ def btVB (degR degC nbr nbc : Nat) (rowsR rowsC : List Row) (V : MatQ) : MatQ :=
 def hadamard (a b : MatQ) : MatQ := List.zipWith (List.zipWith (· * ·)) a b
 def maxM (m : MatQ) : Rat := maxL (m.map fun r => maxL (r.map absQ))
 
+def transposeQ (m : MatQ) (ncols : Nat) : MatQ := (List.range ncols).map fun (j : Nat) => m.map fun r => r.getD j 0
+def addM (a b : MatQ) : MatQ := List.zipWith (List.zipWith (· + ·)) a b
+def scaleM (c : Rat) (a : MatQ) : MatQ := a.map fun r => r.map (c * ·)
+
+/-- `(λ_r D₁'D₁ ⊗ I + I ⊗ λ_c D₁'D₁)` applied to an m × n grid (first-order penalty of 2-D iasls on the data grid) -/
+def p1Apply (lamR lamC : Rat) (Z : MatQ) (n : Nat) : MatQ :=
+  let alongRows := transposeQ ((transposeQ Z n).map d1y) Z.length     -- D₁'D₁ Z (acts on the row index)
+  let alongCols := Z.map d1y                                           -- Z D₁'D₁ (acts on the column index)
+  addM (scaleM lamR alongRows) (scaleM lamC alongCols)
+
 /-- exact normwise backward error pieces of a coefficient matrix against
-`(B'WB + λ_r D_r'D_r ⊗ I + I ⊗ λ_c D_c'D_c) vec C = B'W vec Y` with `B = B_r ⊗ B_c` -/
-def backwardErrorP2 (degR degC dR dC : Nat) (lamR lamC : Rat) (knotsR knotsC xs zs : List Rat) (Y W C : MatQ) : Rat × Rat :=
+`(B'WB + λ_r D_r'D_r ⊗ I + I ⊗ λ_c D_c'D_c) vec C = B'W vec Y` with `B = B_r ⊗ B_c`;
+with `iasls`: `W → W²`, plus `B'P₁B` on the left and `B'P₁ vec Y` on the right -/
+def backwardErrorP2 (degR degC dR dC : Nat) (lamR lamC : Rat) (iasls : Bool) (lam1R lam1C : Rat)
+    (knotsR knotsC xs zs : List Rat) (Y W C : MatQ) : Rat × Rat :=
   let nbr := knotsR.length - (degR + 1)
   let nbc := knotsC.length - (degC + 1)
   let rowsR := designRows knotsR degR xs
   let rowsC := designRows knotsC degC zs
+  let n := zs.length
+  let W2 := if iasls then hadamard W W else W
   let Z := applyB2 degR degC rowsR rowsC C
-  let G := btVB degR degC nbr nbc rowsR rowsC (hadamard W Z)
-  let rhs := btVB degR degC nbr nbc rowsR rowsC (hadamard W Y)
+  let inner := if iasls then addM (hadamard W2 Z) (p1Apply lam1R lam1C Z n) else hadamard W2 Z
+  let G := btVB degR degC nbr nbc rowsR rowsC inner
+  let rin := if iasls then addM (hadamard W2 Y) (p1Apply lam1R lam1C Y n) else hadamard W2 Y
+  let rhs := btVB degR degC nbr nbc rowsR rowsC rin
   let pen : MatQ := (List.range nbr).map fun (i : Nat) => (List.range nbc).map fun (j : Nat) =>
     lamR * sumL ((List.range (2 * dR + 1)).map fun (t : Nat) =>
       if i + t < dR then 0 else let i' := i + t - dR; if i' < nbr then dtdFastQ nbr dR i i' * MatQ.at C i' j else 0) +
     lamC * sumL ((List.range (2 * dC + 1)).map fun (t : Nat) =>
       if j + t < dC then 0 else let j' := j + t - dC; if j' < nbc then dtdFastQ nbc dC j j' * MatQ.at C i j' else 0)
   let resid := maxM (List.zipWith (List.zipWith (· - ·)) (List.zipWith (List.zipWith (· + ·)) G pen) rhs)
-  let colw := btVB degR degC nbr nbc rowsR rowsC (W.map fun r => r.map absQ)
+  let colw := btVB degR degC nbr nbc rowsR rowsC (W2.map fun r => r.map absQ)
+  let ones : MatQ := W.map fun r => r.map fun _ => 1
+  let colb := maxM (btVB degR degC nbr nbc rowsR rowsC ones)
   let anorm := maxM colw + absQ lamR * maxL (rowAbsSums (fun i j => dtdFastQ nbr dR i j) nbr dR) +
-    absQ lamC * maxL (rowAbsSums (fun i j => dtdFastQ nbc dC i j) nbc dC)
+    absQ lamC * maxL (rowAbsSums (fun i j => dtdFastQ nbc dC i j) nbc dC) +
+    (if iasls then 4 * (absQ lam1R + absQ lam1C) * colb else 0)
   (resid, anorm * maxM C + maxM rhs)
 
 end PbVerif.PSpline
